@@ -1,3 +1,372 @@
-/-! Property C13 — theorems (statements live here, helper lemmas in Faithful/Lib) -/
+import Faithful.Lib.TruncReaders
+import Faithful.Generated.ReadSites
+
+/-!
+# Property C13 — truncated index or CAR files fail loudly instead of answering "not found"
+
+Every reader of an on-disk file is written as a `RA.Prog` (Faithful/Lib/TruncReaders.lean): a program whose only
+access to the file is `read off len`, which fails when the range is not entirely inside the file — the contract
+of `io.ReaderAt` / `io.ReadFull` the Go readers rely on.  For such programs
+
+* `RA.truncation_safe`  : a cut anywhere gives the same answer or an error;
+* `RA.truncation_exact` : … and exactly: the same answer iff the cut is at or after the last byte the lookup reads.
+
+Whether the Go call sites really are of that shape (no short read is swallowed) is the generated fact
+`readsites_ok`, re-extracted from the source on every run.
+
+All statements are for EVERY file `f` (not only well-formed ones), every cut, every key, and — where a hash
+function, zstd or a third-party decoder is involved — for an arbitrary one.
+-/
 namespace C13
+open RA TR
+open B (unle le slice)
+
+/-! ## the generic facts, restated for an arbitrary reader -/
+
+/-- never "not found", never another value: if the complete file answers `a`, a prefix answers `a` or fails -/
+theorem found_stays_found_or_fails {α : Type} (p : Prog α) (f : List UInt8) (cut : Nat) (hc : cut ≤ f.length)
+    (a : α) (h : run p f = .ok a) : run p (f.take cut) = .ok a ∨ ∃ e, run p (f.take cut) = .err e := by
+  rcases truncation_safe p f cut hc with h1 | h1
+  · left; rw [h1, h]
+  · right; exact h1
+
+/-- the sharper fact (`search_touches_prefix` in the design): the lookup of a stored key on the truncated file
+    succeeds iff every byte it reads lies before the cut; otherwise it is a short-read error -/
+theorem lookup_succeeds_iff_reads_before_cut {α : Type} (p : Prog α) (f : List UInt8) (cut : Nat) (hc : cut ≤ f.length)
+    (a : α) (h : run p f = .ok a) :
+    (run p (f.take cut) = .ok a ↔ hw p f ≤ cut) ∧ (cut < hw p f → run p (f.take cut) = .err "short read") :=
+  ⟨succeeds_iff_reads_before_cut p f cut hc a h, fun hlt => (truncation_exact p f cut).2 hlt hc⟩
+
+/-- what the driver executes (`runA` on an array and a cut) is `run` on the prefix -/
+theorem driver_runs_the_prefix {α : Type} (p : Prog α) (a : Array UInt8) (n : Nat) :
+    runA p a n = run p (a.toList.take n) := runA_eq p a n
+
+/-! ## compact index (cid→offset-and-size, slot→cid, sig→cid, pubkey→offset-and-size: one format, four key/value sizes) -/
+
+/-- `OpenWithReader_X` + `Get` on a file cut anywhere: the same answer or an error.
+    `pre` = the old-format probe of the slot/sig readers, `chk` = the metadata checks of the wrapper, `hf` = the two
+    hash functions — all arbitrary. -/
+theorem C13_compact (pre : Bool) (chk : CI.DB → Option String) (hf : CI.HF) (key : Bytes)
+    (f : Bytes) (cut : Nat) (hc : cut ≤ f.length) :
+    run (ciGetP pre chk hf key) (f.take cut) = run (ciGetP pre chk hf key) f ∨
+      ∃ e, run (ciGetP pre chk hf key) (f.take cut) = .err e :=
+  truncation_safe _ f cut hc
+
+/-- in particular a key the complete file finds is never reported `notFound` (nor found with another value) -/
+theorem C13_compact_never_notfound (pre : Bool) (chk : CI.DB → Option String) (hf : CI.HF) (key v : Bytes)
+    (f : Bytes) (cut : Nat) (hc : cut ≤ f.length) (h : run (ciGetP pre chk hf key) f = .ok (.found v)) :
+    run (ciGetP pre chk hf key) (f.take cut) ≠ .ok .notFound ∧
+    ∀ v', run (ciGetP pre chk hf key) (f.take cut) = .ok (.found v') → v' = v := by
+  rcases found_stays_found_or_fails _ f cut hc _ h with h1 | ⟨e, h1⟩
+  · rw [h1]; constructor
+    · intro h2; cases h2
+    · intro v' h2; cases h2; rfl
+  · rw [h1]; constructor
+    · intro h2; cases h2
+    · intro v' h2; cases h2
+
+/-- the stored key is still found on the prefix exactly when the cut is behind the last entry the eytzinger
+    search touched (and behind the header and the bucket header) -/
+theorem C13_compact_exact (pre : Bool) (chk : CI.DB → Option String) (hf : CI.HF) (key v : Bytes)
+    (f : Bytes) (cut : Nat) (hc : cut ≤ f.length) (h : run (ciGetP pre chk hf key) f = .ok (.found v)) :
+    run (ciGetP pre chk hf key) (f.take cut) = .ok (.found v) ↔ hw (ciGetP pre chk hf key) f ≤ cut :=
+  succeeds_iff_reads_before_cut _ f cut hc _ h
+
+/-- the `Prog` readers are the readers of Faithful/Lib/CompactIndex.lean (which C04 compares with the real code) -/
+theorem C13_compact_is_the_C04_reader (hf : CI.HF) (f : Array UInt8) (db : CI.DB) (key : Bytes) :
+    lookOf (run (ciLookupP hf db key) f.toList) = CI.lookupB hf f db key ∧
+    resOk (run ciOpenP f.toList) = (match CI.openB f with | .ok db => some db | _ => none) :=
+  ⟨ciLookup_agrees hf f db key, ciOpen_agrees f⟩
+
+/-! ## sig-exists (bucketteer) -/
+
+theorem C13_sigexists (chk : MetaKVs → Option String) (p x : Nat) (f : Bytes) (cut : Nat) (hc : cut ≤ f.length) :
+    run (bkHasP chk p x) (f.take cut) = run (bkHasP chk p x) f ∨ ∃ e, run (bkHasP chk p x) (f.take cut) = .err e :=
+  truncation_safe _ f cut hc
+
+/-- a signature the complete index reports present is never reported absent by a truncated copy -/
+theorem C13_sigexists_no_false_negative (chk : MetaKVs → Option String) (p x : Nat) (f : Bytes) (cut : Nat)
+    (hc : cut ≤ f.length) (h : run (bkHasP chk p x) f = .ok true) : run (bkHasP chk p x) (f.take cut) ≠ .ok false := by
+  rcases found_stays_found_or_fails _ f cut hc _ h with h1 | ⟨e, h1⟩ <;> rw [h1] <;> intro h2 <;> cases h2
+
+/-! ## slot-to-blocktime -/
+
+/-- repaired decoder (`io.ReadFull` per field, /verif/fixes/C13-1.patch): same value or an error -/
+theorem C13_blocktime (slot : Nat) (f : Bytes) (cut : Nat) (hc : cut ≤ f.length) :
+    run (btGetP slot) (f.take cut) = run (btGetP slot) f ∨ ∃ e, run (btGetP slot) (f.take cut) = .err e :=
+  truncation_safe _ f cut hc
+
+theorem hw_btOpen {f : Bytes} {ix : BT} (h : run btOpenP f = .ok ix) : 46 + 4 * ix.cap ≤ hw btOpenP f := by
+  unfold btOpenP at h ⊢
+  simp only [run, hw] at h ⊢
+  cases h0 : readAt f 0 14 with
+  | none => simp [h0] at h
+  | some m =>
+    simp only [h0] at h ⊢
+    by_cases hm : m ≠ Generated.blocktimeMagic
+    · simp [hm, run] at h
+    · simp only [hm, if_false, run, hw] at h ⊢
+      cases h1 : readAt f 14 8 with
+      | none => simp [h1] at h
+      | some s =>
+        simp only [h1] at h ⊢
+        cases h2 : readAt f 22 8 with
+        | none => simp [h2] at h
+        | some e =>
+          simp only [h2] at h ⊢
+          cases h3 : readAt f 30 8 with
+          | none => simp [h3] at h
+          | some ep =>
+            simp only [h3] at h ⊢
+            by_cases c1 : unle s / Generated.epochLen ≠ unle e / Generated.epochLen
+            · simp [c1, run] at h
+            · by_cases c2 : unle s / Generated.epochLen ≠ unle ep
+              · simp [c1, c2, run] at h
+              · simp only [c1, c2, if_false, run, hw] at h ⊢
+                cases h4 : readAt f 38 8 with
+                | none => simp [h4] at h
+                | some c =>
+                  simp only [h4] at h ⊢
+                  cases h5 : readAt f 46 (4 * unle c) with
+                  | none => simp [h5] at h
+                  | some vals =>
+                    simp only [h5, Res.ok.injEq] at h ⊢
+                    subst h
+                    dsimp only
+                    omega
+
+/-- **exact-size read**: the decoder needs all `46 + 4·capacity` bytes, so ANY cut inside the index is an open
+    error — whatever slot is asked for -/
+theorem C13_blocktime_any_cut_is_an_open_error (slot : Nat) (f : Bytes) (ix : BT) (h : run btOpenP f = .ok ix)
+    (cut : Nat) (hc : cut ≤ f.length) (hlt : cut < 46 + 4 * ix.cap) :
+    run (btGetP slot) (f.take cut) = .err "short read" := by
+  have h1 : run btOpenP (f.take cut) = .err "short read" :=
+    (truncation_exact btOpenP f cut).2 (Nat.lt_of_lt_of_le hlt (hw_btOpen h)) hc
+  unfold btGetP
+  rw [run_bind, h1]
+
+/-- the server's load path reads exactly `size` bytes with one `ReadAt` BEFORE decoding: any cut is an error for
+    every decoder, including the pinned one that accepts short fields -/
+theorem C13_blocktime_server {α : Type} (size : Nat) (decode : Bytes → Res α) (f : Bytes) (cut : Nat) (hlt : cut < size) :
+    run (exactThenP size decode) (f.take cut) = .err "short read" := by
+  unfold exactThenP
+  simp only [run]
+  rw [readAt_take_none f cut 0 size (by omega)]
+
+/-- the decoder of the pinned tree is NOT truncation safe: a file that lost its last byte decodes "successfully"
+    and answers another block time for the last slot (capacity 1, time 0x01020304 → 0x020304) -/
+theorem C13_blocktime_pinned_decoder_violates :
+    ∃ (f : Bytes) (cut slot a b : Nat), cut ≤ f.length ∧ btGetPinned f slot = some a ∧
+      btGetPinned (f.take cut) slot = some b ∧ a ≠ b :=
+  ⟨Generated.blocktimeMagic ++ B.le 8 0 ++ B.le 8 0 ++ B.le 8 0 ++ B.le 8 1 ++ [4, 3, 2, 1], 49, 0, 0x01020304, 0x020304,
+    by decide, by decide, by decide, by decide⟩
+
+/-! ## gsfa: linked log, pubkey index, manifest -/
+
+theorem C13_linkedlog (Z : Gsfa.Zstd) (off size : Nat) (f : Bytes) (cut : Nat) (hc : cut ≤ f.length) :
+    run (llReadP Z off size) (f.take cut) = run (llReadP Z off size) f ∨ ∃ e, run (llReadP Z off size) (f.take cut) = .err e :=
+  truncation_safe _ f cut hc
+
+/-- a record is readable from the prefix iff it ends before the cut -/
+theorem C13_linkedlog_exact (Z : Gsfa.Zstd) (off size : Nat) (f : Bytes) (cut : Nat) (hc : cut ≤ f.length)
+    (a : List Gsfa.Entry × Gsfa.Ptr) (h : run (llReadP Z off size) f = .ok a) :
+    run (llReadP Z off size) (f.take cut) = .ok a ↔ off + size ≤ cut := by
+  have hh : hw (llReadP Z off size) f = off + size := by
+    unfold llReadP at h ⊢
+    by_cases h0 : size > Gsfa.mib256
+    · simp [h0, run] at h
+    · simp only [h0, if_false, hw, run] at h ⊢
+      cases hr : readAt f off size with
+      | none => rfl
+      | some r =>
+        simp only [hr] at h ⊢
+        have := hw_llParse Z size r f
+        omega
+  rw [← hh]
+  exact succeeds_iff_reads_before_cut _ f cut hc a h
+
+/-- the whole walk of `GsfaReader.Get` over the log -/
+theorem C13_linkedlog_walk (Z : Gsfa.Zstd) (fuel : Nat) (head : Gsfa.Ptr) (limit : Nat) (f : Bytes) (cut : Nat)
+    (hc : cut ≤ f.length) :
+    run (llWalkP Z fuel head limit []) (f.take cut) = run (llWalkP Z fuel head limit []) f ∨
+      ∃ e, run (llWalkP Z fuel head limit []) (f.take cut) = .err e :=
+  truncation_safe _ f cut hc
+
+theorem C13_pubkeyindex (chk : CI.DB → Option String) (hf : CI.HF) (pk : Bytes) (f : Bytes) (cut : Nat) (hc : cut ≤ f.length) :
+    run (ciGetP false chk hf pk) (f.take cut) = run (ciGetP false chk hf pk) f ∨
+      ∃ e, run (ciGetP false chk hf pk) (f.take cut) = .err e :=
+  truncation_safe _ f cut hc
+
+/-- `GsfaReader.Get` with the index file AND the linked log cut (independently, anywhere): the same list or an
+    error — in particular never an empty or shorter list for an address the complete index answers -/
+theorem C13_gsfa_get (Z : Gsfa.Zstd) (chk : CI.DB → Option String) (hf : CI.HF) (fuel : Nat) (pk : Bytes) (limit : Nat)
+    (idx log : Bytes) (ci cl : Nat) (hi : ci ≤ idx.length) (hl : cl ≤ log.length) :
+    gsfaGet Z chk hf fuel pk limit (idx.take ci) (log.take cl) = gsfaGet Z chk hf fuel pk limit idx log ∨
+      ∃ e, gsfaGet Z chk hf fuel pk limit (idx.take ci) (log.take cl) = .err e := by
+  unfold gsfaGet
+  by_cases h0 : limit = 0
+  · simp [h0]
+  · simp only [h0, if_false]
+    rcases truncation_safe (ciGetP false chk hf pk) idx ci hi with h1 | ⟨e, h1⟩
+    · rw [h1]
+      cases hr : run (ciGetP false chk hf pk) idx with
+      | err e => right; exact ⟨e, rfl⟩
+      | ok look =>
+        cases look with
+        | hang => left; rfl
+        | err => left; rfl
+        | notFound => left; rfl
+        | found v =>
+          simp only
+          by_cases hv : v.length ≠ 9
+          · simp [hv]
+          · simp only [hv, if_false]
+            rcases truncation_safe (llWalkP Z fuel (Gsfa.ptrOfBytes v) limit []) log cl hl with h2 | ⟨e, h2⟩
+            · rw [h2]; left; rfl
+            · rw [h2]; right; exact ⟨e, rfl⟩
+    · rw [h1]; right; exact ⟨e, rfl⟩
+
+/-- gsfa manifest as the epoch loader uses it.  The opener is not a pure reader (an empty file gets a fresh header
+    and opens), yet: if the complete manifest passes the loader's checks with `(epoch, root)`, a truncated copy
+    passes them with the same values or the load fails — in particular the fresh header written into an empty file
+    carries no epoch, so the load fails -/
+theorem C13_manifest (wantEpoch : Nat) (wantRoot : Bytes) (f : Bytes) (cut : Nat) (hc : cut ≤ f.length)
+    (v : Nat × Bytes) (h : manifestLoad wantEpoch wantRoot f = .ok v) :
+    manifestLoad wantEpoch wantRoot (f.take cut) = .ok v ∨ ∃ e, manifestLoad wantEpoch wantRoot (f.take cut) = .err e := by
+  have hver : ¬ Generated.manifestVersion < 2 := by decide
+  by_cases hz : (f.take cut).length = 0
+  · -- fresh header, empty metadata: the epoch is missing
+    right
+    unfold manifestLoad manifestOpen
+    simp only [hz, if_true, hver, if_false]
+    exact ⟨_, rfl⟩
+  · have hfz : ¬ f.length = 0 := by
+      intro h0; apply hz; simp [List.length_take, h0]
+    unfold manifestLoad manifestOpen at h ⊢
+    simp only [hz, hfz, if_false] at h ⊢
+    rcases truncation_safe manHeaderP f cut hc with h1 | ⟨e, h1⟩
+    · rw [h1]
+      cases hr : run manHeaderP f with
+      | err e => right; exact ⟨e, rfl⟩
+      | ok hd =>
+        rw [hr] at h
+        by_cases c1 : hd.version ≠ Generated.manifestVersion
+        · simp [c1] at h
+        · simp only [c1, if_false] at h ⊢
+          by_cases c2 : ((f.take cut).length - 16 - hd.metaSize) % 16 ≠ 0
+          · right; rw [if_pos c2]; exact ⟨_, rfl⟩
+          · by_cases c3 : (f.length - 16 - hd.metaSize) % 16 ≠ 0
+            · simp [c3] at h
+            · rw [if_neg c3] at h; rw [if_neg c2]
+              left; exact h
+    · rw [h1]; right; exact ⟨e, rfl⟩
+
+/-! ## CAR -/
+
+/-- `getNodeByCid`'s read of an indexed section (local file: `carv2.OpenReader` + `io.ReadFull`; `hdrOk` = the
+    third-party header decoder, arbitrary) -/
+theorem C13_car (hdrOk : Bytes → Bool) (off size : Nat) (want : Bytes) (f : Bytes) (cut : Nat) (hc : cut ≤ f.length) :
+    run (carGetP hdrOk off size want) (f.take cut) = run (carGetP hdrOk off size want) f ∨
+      ∃ e, run (carGetP hdrOk off size want) (f.take cut) = .err e :=
+  truncation_safe _ f cut hc
+
+/-- the remote path (`readNodeFromReaderAtWithOffsetAndSize`: one `ReadAt`, no header read): the object is
+    delivered from a prefix iff its section ends before the cut -/
+theorem C13_car_section_exact (off size : Nat) (want : Bytes) (f : Bytes) (cut : Nat) (hc : cut ≤ f.length)
+    (d : Bytes) (h : run (carNodeP off size want) f = .ok d) :
+    run (carNodeP off size want) (f.take cut) = .ok d ↔ off + size ≤ cut := by
+  have hh : hw (carNodeP off size want) f = off + size := by
+    unfold carNodeP at h ⊢
+    by_cases h0 : size = 0
+    · simp [h0, run] at h
+    · simp only [h0, if_false, hw, run] at h ⊢
+      cases hr : readAt f off size with
+      | none => rfl
+      | some r =>
+        simp only [hr] at h ⊢
+        have := hw_carParse want r f
+        omega
+  rw [← hh]
+  exact succeeds_iff_reads_before_cut _ f cut hc d h
+
+/-- `Epoch.GetNodeByCid` with the cid→offset-and-size index AND the CAR cut: the archived object or an error -/
+theorem C13_epoch_get_node (hdrOk : Bytes → Bool) (chk : CI.DB → Option String) (hf : CI.HF) (cid : Bytes)
+    (idx car : Bytes) (ci cc : Nat) (hi : ci ≤ idx.length) (hcar : cc ≤ car.length) :
+    epochGetNode hdrOk chk hf cid (idx.take ci) (car.take cc) = epochGetNode hdrOk chk hf cid idx car ∨
+      ∃ e, epochGetNode hdrOk chk hf cid (idx.take ci) (car.take cc) = .err e := by
+  unfold epochGetNode
+  rcases truncation_safe (ciGetP false chk hf cid) idx ci hi with h1 | ⟨e, h1⟩
+  · rw [h1]
+    cases hr : run (ciGetP false chk hf cid) idx with
+    | err e => right; exact ⟨e, rfl⟩
+    | ok look =>
+      cases look with
+      | hang => left; rfl
+      | err => left; rfl
+      | notFound => left; rfl
+      | found v =>
+        simp only
+        by_cases hv : v.length ≠ 9
+        · simp [hv]
+        · simp only [hv, if_false]
+          exact truncation_safe _ car cc hcar
+  · rw [h1]; right; exact ⟨e, rfl⟩
+
+/-- the section read agrees with `Car.nodeAt`, the function C01 compares with the real `GetNodeByCid` -/
+theorem C13_car_is_the_C01_reader (car : Bytes) (off size : Nat) (want : Bytes) (hs : size ≠ 0) :
+    resOk (run (carNodeP off size want) car) = Car.nodeAt car off size want := carNode_agrees car off size want hs
+
+/-! ## the call sites: no read on an open/lookup path swallows a short read -/
+
+/-- generated from the source on every run (harness/extract/readsites.go): every `ReadAt` / `io.ReadFull` / `Read` /
+    `ReadByte` call in the reader files that lies on an open or lookup path either returns the error or compares
+    the byte count with the buffer length.  The EOF-tolerant sites (prefetch in `GetBucket`, `Bucket.Load`,
+    `isReaderEmpty`, `Manifest.readAllContent`) are listed by function in the extractor, each with the reason why it
+    is not on a lookup path. -/
+theorem readsites_ok : ∀ s ∈ Generated.readSites, s.onLookupPath = true →
+    (s.cls = .propagated ∨ s.cls = .comparedWithLen) := by decide
+
+/-! ## non-vacuity -/
+
+/-- constant hash functions: bucket 0, entry hash 5 -/
+def hf0 : CI.HF := ⟨fun _ _ => some 0, fun _ _ => 5⟩
+
+/-- a complete one-bucket, one-entry index (value size 1): hash 5 ↦ value [7] -/
+def file0 : Bytes := CI.encode ⟨1, 1, [], [⟨0, #[(5, [7])]⟩]⟩
+
+-- the complete file finds the key; cut inside the entry, the header or to nothing: an error, never `notFound`
+example : run (ciGetP false (fun _ => none) hf0 [1, 2, 3]) file0 = .ok (.found [7]) := by decide
+example : file0.length = 46 := by decide
+example : run (ciGetP false (fun _ => none) hf0 [1, 2, 3]) (file0.take 45) = .err "short read" := by decide
+example : run (ciGetP false (fun _ => none) hf0 [1, 2, 3]) (file0.take 20) = .err "short read" := by decide
+example : run (ciGetP false (fun _ => none) hf0 [1, 2, 3]) (file0.take 0) = .err "short read" := by decide
+example : hw (ciGetP false (fun _ => none) hf0 [1, 2, 3]) file0 = 46 := by decide
+-- the same reader does answer `notFound` for an absent key (the hash differs), so `notFound` is a possible answer
+example : run (ciGetP false (fun _ => none) ⟨fun _ _ => some 0, fun _ _ => 6⟩ [9]) file0 = .ok .notFound := by decide
+
+-- blocktime: capacity 2, times 100 and 200 for slots 0 and 1
+def bt0 : Bytes := Generated.blocktimeMagic ++ B.le 8 0 ++ B.le 8 1 ++ B.le 8 0 ++ B.le 8 2 ++ B.le 4 100 ++ B.le 4 200
+example : run (btGetP 1) bt0 = .ok 200 := by decide
+example : run (btGetP 0) (bt0.take 53) = .err "short read" := by decide   -- slot 0's own bytes are all there
+example : run (exactThenP 54 (fun b => run (btGetP 1) b)) bt0 = .ok 200 := by decide
+
+-- manifest: complete header with the epoch and a root, one tuple; the empty file gets a fresh header and the load fails
+def man0 : Bytes := Generated.manifestMagic ++ B.le 8 5 ++ [2] ++ ([5] ++ Generated.metaKeyEpoch ++ [8] ++ B.le 8 7)
+  ++ ([7] ++ Generated.metaKeyRootCid ++ [2, 1, 2]) ++ B.le 8 1 ++ B.le 8 2
+example : manifestLoad 7 [1, 2] man0 = .ok (7, [1, 2]) := by decide
+example : manifestOpen (man0.take 0) = .ok ⟨5, [], 1⟩ := by decide
+example : manifestLoad 7 [1, 2] (man0.take 0) = .err "the gsfa index does not have the epoch metadata" := by decide
+example : manifestLoad 7 [1, 2] (man0.take (man0.length - 16)) = .ok (7, [1, 2]) := by decide
+example : manifestLoad 7 [1, 2] (man0.take (man0.length - 3)) = .err "manifest is corrupt" := by decide
+
+-- CAR section read: a 1-byte header, one section (36-byte CID of zeroes, data [9]) at offset 2
+def car0 : Bytes := [1, 0xa0] ++ ([37] ++ List.replicate 36 0 ++ [9])
+example : run (carGetP (fun _ => true) 2 38 (List.replicate 36 0)) car0 = .ok [9] := by decide
+example : run (carGetP (fun _ => true) 2 38 (List.replicate 36 0)) (car0.take 39) = .err "short read" := by decide
+example : run (carGetP (fun _ => true) 2 38 (List.replicate 36 0)) (car0.take 1) = .err "short read" := by decide
+
+-- the read-site table is not empty and does contain sites that are exempt for a stated reason
+example : Generated.readSites.length > 20 := by decide
+example : (Generated.readSites.filter (fun s => !s.onLookupPath)).length = 4 := by decide
+
 end C13
